@@ -83,10 +83,12 @@ def cases(tier, seed, shard, nshards):
             for s0 in SHAPES:
                 if kind != "select" and s0 in ("subquery", "setop", "cte"):
                     continue
-                for second in ("none", "from", "join", "join-using", "foreign-where", "update-from", "join-subquery", "join-aliased-self"):
+                for second in ("none", "from", "join", "join-using", "foreign-where", "update-from", "join-subquery", "join-aliased-self", "insert-select-join"):
                     if second == "update-from" and kind != "update":
                         continue
-                    if kind in ("insert", "delete") and second not in ("none", "foreign-where"):
+                    if second == "insert-select-join" and kind != "insert":
+                        continue
+                    if kind in ("insert", "delete") and second not in ("none", "foreign-where") and not (kind == "insert" and second == "insert-select-join"):
                         continue
                     for s1 in (SHAPES if second in ("from", "join", "join-using") else ["plain"]):
                         k += 1
@@ -254,13 +256,22 @@ def build(case):
             exp.append((a, "FOREIGN", "where"))
     else:
         a, b = c.col(), c.col()
-        q = q.columns(r["Field"](a, table=tbl(0)), b).insert(1, 2)
+        q = q.columns(r["Field"](a, table=tbl(0)), b)
+        if second == "insert-select-join":
+            # fed by a SELECT over two sources: its columns are qualified, the insert/upsert clauses are not
+            fu, fv = T("feed_u"), T("feed_v")
+            x1, x2, x3, x4 = c.col(), c.col(), c.col(), c.col()
+            q = q.from_(fu).join(fv).on(r["Field"](x1, table=fu) == r["Field"](x2, table=fv)).select(r["Field"](x3, table=fu), r["Field"](x4, table=fv))
+            exp += [(x1, "FEED_U", "on"), (x2, "FEED_V", "on"), (x3, "FEED_U", "select"), (x4, "FEED_V", "select")]
+            multi = True  # (RETURNING follows the statement's decision; the column list and the upsert clauses stay bare)
+        else:
+            q = q.insert(1, 2)
         # (columns() attaches names given as strings to the insert table, so they behave like its Fields)
         exp += [(a, "ALIASED-ONLY-S0", "insert-columns"), (b, "ALIASED-ONLY-S0", "insert-columns")]
         oc, ou = c.col(), c.col()
         q = q.on_conflict(r["Field"](oc, table=tbl(0))).do_update(r["Field"](ou, table=tbl(0)), 7)
         if DIALECT_OF[d] != "mysql":  # ON DUPLICATE KEY UPDATE has no conflict target
-            exp.append((oc, "BARE-OR-S0", "on-conflict-target"))
+            exp.append((oc, "ALIASED-ONLY-S0", "on-conflict-target"))
         exp.append((ou, "ALIASED-ONLY-S0", "on-conflict-update"))
         if d == "PostgreSQLQuery":
             q = q.returning(F(0, "returning"))
@@ -270,8 +281,10 @@ def build(case):
         multi = True
     names = {"S%d" % i: s[1] for i, s in enumerate(sources)}
     names["FOREIGN"] = fq if foreign is not None else "outer_t"
+    names["FEED_U"], names["FEED_V"] = "feed_u", "feed_v"
     always = {"S%d" % i: s[2] for i, s in enumerate(sources)}
     always["FOREIGN"] = faq if foreign is not None else False
+    always["FEED_U"] = always["FEED_V"] = True  # (two sources in the feeding SELECT: always qualified there)
     return q, exp, multi, names, always
 
 
@@ -433,7 +446,7 @@ def run_case(case, mon):
                     fault = "unqualified"
                 else:
                     fault = "wrong-qualifier"
-                trigger = case["second"] if case["second"] != "none" else ("aliased" if any(always.values()) else "single")
+                trigger = case["second"] if case["second"] != "none" else ("aliased" if any(v_ for k_, v_ in always.items() if not k_.startswith("FEED")) else "single")
                 if case["s0"] == "setop" or (case["s1"] == "setop" and case["second"] in ("from", "join")):
                     trigger += "+setop-source"
                 mon.violation("%s:%s:%s:%s" % (fault, clause, trigger, case["kind"]),
